@@ -62,3 +62,8 @@ claim("C18", "PBT (rapid): per-function argument generators (scalars of every ki
       "Generated-input search through `SELECT f(args) AS v` on two equal rows and through direct calls of the exported Go functions, judged by reference implementations written from the statement; held on everything explored.",
       "Open finding concat-null (CONCAT prints NULL as <nil>; pinned by the repository's own test) is routed and reported as KNOWN-FINDING; ELEMENTAT on empty arrays and unknown names accept NULL or error.",
       "DESIGN.md 4/C18")
+
+claim("C20", "PBT (rapid), model-based: generated histories of queries sharing one variable map vs. a sequential register model (rows in source order, items left to right), map compared after every query",
+      "Generated histories (1-5 queries, preset maps, read-modify-write patterns) replayed against a register model; every GETVAR column, the absence of SETVAR columns and the caller's map after each Exec are compared; held on everything explored.",
+      "No ORDER BY/GROUP BY/LIMIT/joins (evaluation order unspecified there); WHERE does not read variables.",
+      "DESIGN.md 4/C20")
